@@ -359,14 +359,25 @@ def bounded_assemble(index, tier, seed):
                                          rtf_page_header=rtf.RTFPageHeader(), rtf_page_footer=rtf.RTFPageFooter(text="foot")),
             "coloured": rtf.RTFDocument(df=pl.DataFrame({"a": ["c1", "c2"]}), rtf_body=rtf.RTFBody(text_color="red"), rtf_footnote=rtf.RTFFootnote(text="fn")),
         }
+        from PIL import Image
+        figs = []
+        for k in range(2):
+            fp = os.path.join(tmp, f"fig{k}.png")
+            Image.new("RGB", (4 + k, 3), (200, 30 * k, 10)).save(fp)
+            figs.append(fp)
+        docs["figure_two_pages"] = rtf.RTFDocument(rtf_figure=rtf.RTFFigure(figures=figs, fig_width=2.0, fig_height=1.5), rtf_title=rtf.RTFTitle(text="FIGT"))
+        docs["multi_section"] = rtf.RTFDocument(df=[pl.DataFrame({"a": ["m1", "m2"]}), pl.DataFrame({"b": ["m3"], "c": ["m4"]})],
+                                                rtf_body=[rtf.RTFBody(), rtf.RTFBody()])
         paths = {}
         for k, d in docs.items():
             p = os.path.join(tmp, k + ".rtf")
             d.write_rtf(p)
             paths[k] = p
-        orders = [list(p) for n in (1, 2, 3) for p in itertools.permutations(list(docs), n)]
-        rng.shuffle(orders)
-        for order in orders[: (12 if tier == "quick" else len(orders))]:
+        short = [list(p) for n in (1, 2) for p in itertools.permutations(list(docs), n)]          # every document first, last and alone
+        triples = [list(p) for p in itertools.permutations(list(docs), 3)]
+        rng.shuffle(triples)
+        orders = short + triples[: (12 if tier == "quick" else len(triples))]
+        for order in orders:
             cases += 1
             out = os.path.join(tmp, "out.rtf")
             if os.path.exists(out):
@@ -405,7 +416,8 @@ def bounded_assemble(index, tier, seed):
     finally:
         _quiet.__exit__(None, None, None)
         shutil.rmtree(tmp, ignore_errors=True)
-    return {"bound": "4 real documents (1 page, 3 pages, landscape with header/footer, coloured with footnote), all orderings of 1-3 inputs (12 sampled in quick)",
+    return {"bound": "6 real documents (1 page, 3 pages, landscape with header/footer, coloured with footnote, 2-figure document, 2-section document): every single "
+                     "input, every ordered pair, and orderings of 3 inputs (12 sampled in quick, all in thorough)",
             "cases": cases, "failures": fails}
 
 
